@@ -211,6 +211,16 @@ class Session:
         return (len(t), list(t._col_names),
                 {k: (v.tolist() if hasattr(v, "tolist") else v) for k, v in t._data.items()})
 
+    @staticmethod
+    def snapshot_differs(a, b):
+        if a[0] != b[0] or a[1] != b[1] or set(a[2]) != set(b[2]):
+            return True
+        for k in a[2]:
+            x, y = a[2][k], b[2][k]
+            if json.dumps(x, default=str) != json.dumps(y, default=str):
+                return True
+        return False
+
     def rect(self, t):
         """C14's invariant on one table"""
         if t._index not in t._col_names:
@@ -275,6 +285,40 @@ class Session:
                     r = t.rows[sel_py(op["sel"])]
                     val = {"index": [str(x) for x in r._data[r._index]], "n": len(r)}
                     extra["derived"] = r
+                elif kind == "derive":
+                    before = self.snapshot(t)
+                    extra["before"] = before
+                    cur = t
+                    chain = []
+                    for st in op["steps"]:
+                        src_before = self.snapshot(cur)
+                        if st[0] == "rows":
+                            nxt = cur.rows[sel_py(st[1])]
+                        elif st[0] == "cols":
+                            nxt = cur.cols[list(st[1])]
+                        elif st[0] == "copy":
+                            nxt = cur._copy()
+                        elif st[0] == "mul":
+                            nxt = cur * st[1]
+                        elif st[0] == "add_source":
+                            nxt = cur + t
+                        elif st[0] == "add_self":
+                            nxt = cur + cur
+                        elif st[0] == "transpose":
+                            nxt = cur._t
+                        elif st[0] == "concatenate":
+                            nxt = Table.concatenate([cur, cur])
+                        else:
+                            raise ValueError(st)
+                        chain.append((st, cur, src_before, nxt))
+                        cur = nxt
+                    extra["chain"] = chain
+                    val = {"cols": list(cur._col_names), "nrows": len(cur),
+                           "index": [str(x) for x in cur._data[cur._index]],
+                           "rect": self.rect(cur) is None,
+                           "cells": [[cell_json(x) for x in cur._data[c]] for c in cur._col_names]}
+                elif kind == "exprcol":
+                    val = [cell_json(x) for x in (t[op["expr"]] if not op.get("via_cols") else t.cols[op["expr"]][op["expr"]])]
                 else:
                     raise ValueError("unknown op " + kind)
         except Exception as e:  # noqa
@@ -357,6 +401,37 @@ class Session:
                 if got != i:
                     self.fail("C07", "label-does-not-resolve", {"index": col, "label": lab, "row": i, "got": got})
                     break
+        elif kind == "derive" and exc != "ok":
+            st["c14_chains"] = st.get("c14_chains", 0) + 1
+            simple = all(s_[0] in ("rows", "cols", "copy", "add_self", "transpose") or (s_[0] == "mul" and s_[1] >= 1) for s_ in op["steps"])
+            if simple and exc not in ("IndexError",):
+                self.fail("C14", "derivation-raises", {"steps": op["steps"], "exc": exc,
+                                                       "non_array_entries": {k: repr(v)[:30] for k, v in t._data.items() if not hasattr(v, "dtype")},
+                                                       "listed_columns": list(t._col_names)})
+        elif kind == "derive":
+            st["c14_chains"] = st.get("c14_chains", 0) + 1
+            if "before" in extra and self.snapshot_differs(extra["before"], self.snapshot(t)):
+                self.fail("C14", "source-changed", {"steps": op["steps"]})
+            for stp, src, src_before, nxt in extra.get("chain", []):
+                st["c14_derivations"] = st.get("c14_derivations", 0) + 1
+                why = self.rect(nxt)
+                if why:
+                    self.fail("C14", "not-rectangular", {"step": stp, "why": why, "steps": op["steps"]})
+                    break
+                if self.snapshot_differs(src_before, self.snapshot(src)):
+                    self.fail("C14", "source-changed", {"step": stp, "steps": op["steps"]})
+                    break
+                if stp[0] in ("rows", "cols"):
+                    for k in [k for k, v in src._data.items() if not hasattr(v, "dtype")]:
+                        if k not in nxt._data or nxt._data[k] != src._data[k]:
+                            self.fail("C14", "scalar-not-carried", {"step": stp, "scalar": k})
+                            break
+        elif kind == "exprcol" and exc == "ok":
+            st["c14_exprcols"] = st.get("c14_exprcols", 0) + 1
+            env = {c: np.array(t._data[c]) for c in t._col_names}
+            want = [cell_json(x) for x in eval(op["expr"], {"np": np}, env)]
+            if val != want:
+                self.fail("C14", "expression-column-not-elementwise", {"expr": op["expr"], "got": val, "want": want})
         elif kind in ("indices", "mask", "rows"):
             vals = {k: (v.tolist() if hasattr(v, "tolist") else v) for k, v in t._data.items() if k in t._col_names}
             sel = op["sel"]
@@ -553,6 +628,59 @@ def gen_c08(rng, sess):
             sess.step(add_matches({"op": kind, "sel": sel}, col))
 
 
+def gen_c14(rng, sess):
+    op = gen_table(rng, 6, ["a", "b", "c"])
+    n = len(op["cols"][0][1])
+    op["cols"].append(["x", [{"f": repr(0.5 * i)} for i in range(n)]])
+    op["scalars"] = [["sc", 3.5], ["title", "hello"]]
+    sess.step(op)
+    t = sess.pool[0]
+    col = [str(x) for x in t._data["name"]]
+    for _ in range(rng.randint(2, 6)):
+        r = rng.random()
+        if r < 0.7:
+            steps = []
+            cur_n = n
+            cols_now = ["name", "v", "w", "s", "x"]
+            for _ in range(rng.randint(1, 4)):
+                x = rng.random()
+                if x < 0.35:
+                    sel = rng.choice([["ints", [rng.randrange(cur_n) for _ in range(rng.randint(0, 3))]] if cur_n else ["all"],
+                                      ["slice", rng.choice([None, 0, 1]), rng.choice([None, 2, -1]), rng.choice([None, 1, -1])],
+                                      ["bools", [rng.random() < 0.5 for _ in range(cur_n)]] if cur_n is not None else ["slice", None, None, -1],
+                                      ["all"]])
+                    steps.append(["rows", sel])
+                    cur_n = None
+                elif x < 0.55:
+                    keep = [c for c in cols_now if rng.random() < 0.6]
+                    if keep:
+                        steps.append(["cols", keep])
+                        cols_now = keep if "name" in keep else ["name"] + keep
+                elif x < 0.65:
+                    steps.append(["copy"])
+                elif x < 0.75:
+                    steps.append(["mul", rng.randint(1, 3)])
+                    cur_n = None
+                elif x < 0.83 and cols_now == ["name", "v", "w", "s", "x"]:
+                    steps.append(["add_source"])
+                    cur_n = None
+                elif x < 0.9:
+                    steps.append(["add_self"])
+                    cur_n = None
+                elif x < 0.95:
+                    steps.append(["transpose"])
+                    break
+                else:
+                    steps.append(["concatenate"])
+                    cur_n = None
+            if steps:
+                sess.step({"op": "derive", "steps": steps})
+        elif r < 0.85:
+            sess.step({"op": "exprcol", "expr": rng.choice(["v+2*w", "v*w-x", "x/2+v", "np.sqrt(x)+w", "v**2"]), "via_cols": rng.random() < 0.4})
+        else:
+            sess.step({"op": "setcol", "name": "new%d" % rng.randint(0, 3), "vals": list(range(n))})
+
+
 def exhaustive_c08(sess_factory, k):
     """every index column over a 3-name alphabet up to length k x a fixed battery of selectors"""
     battery = [["pat", "a"], ["pat", "a::0"], ["pat", "a::1"], ["pat", "a::-1"], ["pat", "[ab]::-1"], ["pat", ".*::1"],
@@ -606,7 +734,7 @@ def main():
             stats["histories"] += 1
     for i in range(a.n):
         s = Session(1000 + i, stats, failures, a.family)
-        {"c07": gen_c07, "c08": gen_c08}[a.family](rng, s)
+        {"c07": gen_c07, "c08": gen_c08, "c14": gen_c14}[a.family](rng, s)
         lines.extend(s.lines)
         stats["histories"] += 1
     with open(a.out + ".ops.jsonl", "w") as f:
